@@ -657,11 +657,15 @@ async def _settle(engine_pool):
     co1 = engine_pool.checkedout()
     with warnings.catch_warnings(record=True) as ws:
         warnings.simplefilter("always")
-        await asyncio.sleep(0)
-        await asyncio.sleep(0)
-        gc.collect()
-        await asyncio.sleep(0)
-        await asyncio.sleep(0.002)  # orphaned aiosqlite connections are stopped on their own thread
+        # a connection that was never closed is reclaimed whenever the collector gets to it: late
+        # callbacks of the connection thread can keep the garbage alive for a few loop iterations
+        for _ in range(4):
+            await asyncio.sleep(0)
+            await asyncio.sleep(0)
+            gc.collect()
+            await asyncio.sleep(0.003)  # orphaned aiosqlite connections are stopped on their own thread
+            if engine_pool.checkedout() == 0:
+                break
     return co1, engine_pool.checkedout(), _warn_count(ws), len(hung)
 
 
